@@ -1,7 +1,7 @@
 import os
 import vlib
 
-THEOREMS = []
+THEOREMS = ["Dispenso.OpResult." + t for t in ["C40_ledger", "C40_all_destroyed", "C40_wf_reachable", "C40_sem_mkVal", "C40_sem_copyCtor", "C40_sem_moveCtor", "C40_sem_copyAssign", "C40_sem_moveAssign", "C40_sem_copyAssign_self", "C40_sem_moveAssign_self", "C40_sem_emplace", "C40_sem_destroy", "C40_sem_frame", "C40_old_leaks"]]
 
 
 def run(ctx, replay):
